@@ -18,6 +18,17 @@ Theorem C01_gen_propagates : forall w d c,
 Proof. exact gen_propagates. Qed.
 Print Assumptions C01_gen_propagates.
 
+(* exact characterisation (refinement to a five-line specification): the generator of ANY derivation that evaluates
+   is the one fixed by the first constructor on its receiver spine - so the two unseeded fall-backs and an unseeded
+   space are the ONLY ways to meet a foreign generator *)
+Theorem C01_gen_refines_spec : forall w d c, eval w d = Ok c -> gen c = gen_spec w d.
+Proof. exact gen_refines_spec. Qed.
+Print Assumptions C01_gen_refines_spec.
+
+Theorem C01_cell_gen_refines_spec : forall w d c, ceval w d = Ok c -> gen c = cgen_spec w d.
+Proof. exact cgen_refines_spec. Qed.
+Print Assumptions C01_cell_gen_refines_spec.
+
 (* same for CellCollections: all_cells, empties, neighbourhoods, nested selections *)
 Theorem C01_cell_gen_propagates : forall w d c,
   seeded_space w -> wf_cterm d -> ceval w d = Ok c -> gen c = MODEL_GEN.
@@ -48,6 +59,14 @@ Theorem C01_move_to_empty_perm_invariant : forall w a pi pi' k tape,
   step gen_mte_choice_sorted w (MoveToEmpty a pi k tape) = step gen_mte_choice_sorted w (MoveToEmpty a pi' k tape).
 Proof. rewrite C01_source_sorts_empties. exact move_to_empty_perm_invariant. Qed.
 Print Assumptions C01_move_to_empty_perm_invariant.
+
+(* lifted to whole histories: two runs whose move_to_empty calls saw the empties in different orders produce the same
+   observations and end in the same world *)
+Theorem C01_history_perm_invariant : forall ops ops', Forall2 op_perm ops ops' ->
+  forall w, run_ops gen_mte_choice_sorted w ops = run_ops gen_mte_choice_sorted w ops' /\
+            final gen_mte_choice_sorted w ops = final gen_mte_choice_sorted w ops'.
+Proof. rewrite C01_source_sorts_empties. exact history_perm_invariant. Qed.
+Print Assumptions C01_history_perm_invariant.
 
 (* ... and without it the statement fails (what the T1 tie protects against) *)
 Theorem C01_unsorted_choice_depends_on_order :
@@ -153,6 +172,19 @@ Example C01_example_perm :
 Proof.
   split; [|vm_compute; split; reflexivity].
   exact (Permutation_cons_append [(0, 0); (1, 0)] (1, 1)).
+Qed.
+
+Example C01_example_history_perm :
+  Forall2 op_perm [LRemove 2; MoveToEmpty 1 [(1, 1); (0, 0); (1, 0); (0, 1)] 3 []]
+                  [LRemove 2; MoveToEmpty 1 [(0, 0); (0, 1); (1, 0); (1, 1)] 3 []] /\
+  run_ops true ex_world [LRemove 2; MoveToEmpty 1 [(1, 1); (0, 0); (1, 0); (0, 1)] 3 []] = [[0]; [0; 1; 1; 1; 1; 1]] /\
+  gen_spec ex_world (TSelect (TNew TLegacyAgents false) 0 None) = OTHER_GEN.
+Proof.
+  split; [|vm_compute; split; reflexivity].
+  constructor; [apply op_perm_refl|]. constructor; [|constructor]. apply op_perm_mte.
+  change [(1, 1); (0, 0); (1, 0); (0, 1)] with ([(1, 1)] ++ [(0, 0); (1, 0); (0, 1)]).
+  eapply perm_trans; [apply Permutation_app_comm|]. cbn.
+  apply perm_skip. eapply perm_trans; [apply perm_swap|]. apply perm_skip. apply Permutation_refl.
 Qed.
 
 Example C01_example_choices :
